@@ -10,24 +10,27 @@ import re
 import vf
 
 META = {
-    "text": "Theorems (Coq, no axioms) over a Gallina model of txList/MemPool: the pool invariant (per-account lists strictly "
-            "nonce-sorted above the base nonce, ready = maximal gap-free prefix, no duplicate (account, nonce) or hash, hash cache = "
-            "transactions in the lists, length and orphan counters = sums over the lists) is preserved by every atomic step "
-            "(unlocked put check, locked insert, block arrival with setStateDB's scan flags and resetAll, removeTx, eviction, "
-            "getUnconfirmed, get) and hence by every interleaving of any number of threads; a producer receives base+1, base+2, ... "
-            "per account; after a processed block notification no pooled nonce is at or below the account nonce of the new state "
-            "(also for rewinds).  The model is tied to /repo on every run: the real pool is driven through the same operation "
-            "sequences and every intermediate state is diffed with the model; a go/ast translator (gen/gen_locks.go) extracts for "
-            "every function writing pool fields whether mp.Lock is held, closed by a vm_compute reflection obligation.  The "
-            "'schedules' clause over real goroutines is partial: atomicity of the locked sections is assumed from the lock analysis, "
-            "the thorough tier runs 32 goroutines against the real pool and checks the invariant on the result (support only).",
-    "note": "Trusted: Coq kernel/vm_compute; engine and generator; sync.RWMutex gives mutual exclusion; the hash determines sender "
-            "account and nonce (no collisions among submitted transactions; the owner a name resolves to does not change between two "
-            "submissions of one transaction); nonces < 2^64-1; fees are zero in the engine configuration (cost = amount); "
-            "validateTx's type-specific recipient/governance checks are not modelled (TRANSFER only).  Models removeTx after the "
-            "proposed F11 repair (fixes/F11_mempool_removeTx.diff).",
+    "text": "19 theorems (Coq, no axioms) over a Gallina model of txList/MemPool. FULL: the pool invariant (per-account lists strictly "
+            "nonce-sorted above the list's base nonce, ready = maximal gap-free prefix, no duplicate hash or (account, nonce), hash cache = "
+            "transactions in the lists, length/orphan counters = sums) is kept by every atomic step (unlocked put check, locked insert, block "
+            "arrival with setStateDB's scan flags and resetAll, removeTx, eviction, getUnconfirmed, get), hence by every interleaving of any "
+            "number of threads and every sequential run; a producer receives base+1, base+2, ... per account, also under a size budget; after "
+            "a processed notification no pooled nonce of a scanned account is <= the new state nonce (advance or rewind); a child of the best "
+            "block scans every list. PARTIAL: accounts a non-child block does not scan keep a stale base (theorem "
+            "with the hypothesis 'new nonce <= list base'); the schedules clause over real goroutines rests on the lock translator. REFUTED "
+            "(kept visible, code repaired): list lookup by Body.Account (F11). Tie on every run: real MemPool over a real in-memory "
+            "ChainStateDB, every operation's full pool state diffed with the model (vm_compute), incl. a put split by a real block arrival; a "
+            "real txList driven directly; PoolInv / get-run / no-stale predicates on the real fields; 8-32 goroutine runs with a watchdog; "
+            "gen/gen_locks.go (go/ast) -> Gen/Locks.v closed by a reflection obligation. Open known finding reproduced each run: "
+            "C13:pool-write-under-read-lock:getUnconfirmed.",
+    "note": "Trusted: Coq kernel + vm_compute (no axioms); engines, generators and predicates of checks/C13.py; gen_locks.go's textual lock "
+            "scopes and package call graph; sync.RWMutex gives mutual exclusion. Assumptions of the theorems: the tx hash determines (owner "
+            "account, nonce) for all submitted transactions (no collision; a name resolves to one owner between two submissions of one tx); "
+            "nonces < 2^64-1. Modelled rather than verified: validateTx's type-specific recipient/governance checks (engine uses TRANSFER, zero "
+            "fee: cost = amount); unlocked reads of mp.stateDB/bestBlockInfo in validateTx and of the counters in Size()/monitor; the budgeted "
+            "get is tied by the direct predicate only.",
     "technique": "Coq invariant proof over a Gallina pool model with a thread scheduler + step-by-step vm_compute correspondence "
-                 "against the real MemPool + go/ast lock translator",
+                 "against the real MemPool/txList + go/ast lock translator",
 }
 
 RES = {"ok": 0, "toolow": 1, "samenonce": 2, "already": 3, "balance": 4, "notfound": 5, "yes": 6, "no": 7,
@@ -453,7 +456,7 @@ def run(ctx):
                        "the transaction hash determines (owner account, nonce) for all submitted transactions (no collision)",
                        "nonces < 2^64-1, counters within int range",
                        "zero fee configuration: validation cost of a TRANSFER = amount",
-                       "removeTx as repaired by fixes/F11_mempool_removeTx.diff"]
+                       "removeTx / resetAll as in /repo (F11, F26 fixed)"]
     rc, log, binp = ctx.go_test_binary("mempool", [os.path.join(vf.HARNESS, "engines/mempool/zz_verif_c13_engine_test.go")],
                                        "mempool_c13.test")
     if rc != 0:
